@@ -431,8 +431,13 @@ def _result_sites(ctx) -> None:
                     why = "infer_dtype over the stored data"
                 elif d == ("call", ("name", "DataType"), (("name", "object"),), ()):
                     evs = [element_values(it, x) for x in leaves(s.data)]
-                    if evs and all(e is not None and all(is_never_none_term(it, v) for v, _ in e) for e in evs):
-                        why = "object fallback over tuple displays"
+                    if evs and all(e is not None and all(v[0] == "tuple" for v, _ in e) for e in evs):
+                        # truthful for C03 (object admits everything, a tuple is never None) but NOT the inference rule: a sequence
+                        # of tuples infers <tuple>.  tests/test_type_promotion.py pins <object> here, so this is a known finding.
+                        ok, why = False, ("constant <object> over (x, y) tuples - the inference rule applied to these values gives <tuple> "
+                                          "(the incompatible-operand fallback; pinned by test_mixed_incompatible_types_fall_back_to_object)")
+                    elif evs and all(e is not None and all(is_never_none_term(it, v) for v, _ in e) for e in evs):
+                        why = "object over values that cannot be None"
                     else:
                         ok, why = False, "constant object dtype over data that may hold None"
                 else:
